@@ -154,8 +154,7 @@ class USPMMCM(XilinxClocking):
 
                     for d in dividers:
                         clk_freq = vco_freq / d
-                        if not math.isclose(clk_freq, f, rel_tol=m):
-                        # if abs(clk_freq - f) <= f * m:
+                        if abs(clk_freq - f) > f * m:
                             continue
 
                         config[f"clkout{n}_freq"] = clk_freq
